@@ -164,7 +164,21 @@ def main():
         sizes.append(len(text))
         for k, v in ft.items():
             feats[k] = feats.get(k, 0) + v
-    run.cov["input_distribution"] = {"corpus_programs": ncorpus, "generated_programs": ngen, "scenario_uses": feats,
+    # second stream: programs of the shared C01 grammar (preset C10: closures, generators, classes, destructuring,
+    # exceptions ...), so that the core-language lowering is exercised under collection schedules too
+    nprogen = 0
+    try:
+        import progen
+        import jsast
+        for i in range(40 if quick else 500):
+            pr = progen.gen_program(run.rng, preset="C10", size=run.rng.choice([20, 40, 60]))
+            if pr.get("meta", {}).get("early_error"):
+                continue
+            progs.append(("p%d" % i, jsast.to_js(pr)))
+            nprogen += 1
+    except Exception as e:   # the shared generator is optional for this check
+        run.notes.append({"progen_stream_skipped": "%s: %s" % (type(e).__name__, e)})
+    run.cov["input_distribution"] = {"corpus_programs": ncorpus, "generated_programs": ngen, "progen_programs": nprogen, "scenario_uses": feats,
                                      "text_bytes_min_median_max": [min(sizes), sorted(sizes)[len(sizes) // 2], max(sizes)] if sizes else []}
     texts = dict(progs)
     tmo = 600 if quick else 3000
